@@ -9,12 +9,22 @@ ENTRY = dict(
                   "c11_mgo_accepts_iff", "c11_mgo_never_crashes", "c11_indices_masks", "c11_cog_refuses_phase",
                   "c11_decode", "c11_members_are_members", "c11_rotation_signs", "c11_register", "c11_suffix",
                   "c11_measure_ok", "c11_meas_refuses", "c11_suffix_semantics", "c11_process_outcome", "c11_expectation",
-                  "c11_expectation_circuit", "c11_dummy", "c11_facts"],
+                  "c11_expectation_circuit", "c11_contract_inhabited", "c11_collection_reference_oracle", "c11_born_two_qubits",
+                  "c11_expectation_two_qubits", "c11_law_two_qubits_normalised", "c11_dummy", "c11_facts"],
         allowed_axioms=[],
         facts=["value_error_sites"],
         harness="c11",
         level="proof",
-        level_text="Partial proof. Proved for all sizes (any number of qubits, members, groups; closed under the global context) about the "
+        level_text="Partial proof. EXTENSION: (i) the Born/Heisenberg hypothesis is discharged on two qubits: c11_born_two_qubits proves, symbolically "
+                   "in the 8 integer coordinates, that for EVERY non-zero two-qubit state vector with Gaussian-integer amplitudes and EVERY general "
+                   "observable (16 letter pairs incl. identity letters and the dummy) the outcome law computed from the state vector after the "
+                   "appended H/SX rotations satisfies the hypothesis, hence c11_expectation_two_qubits (decoded value = <psi|member|psi>/<psi|psi>) "
+                   "holds with no physical assumption; the state-vector specification is compared with qiskit's Statevector on every run (stream "
+                   "born2; Model/StateVec2.v, proved equal to the theorem's ev_st2/law_st2). For more than two qubits the hypothesis stays an "
+                   "assumption. (ii) c11_contract_inhabited / c11_collection_reference_oracle: a first-fit greedy reference oracle "
+                   "(Model/GroupingGreedy.v) satisfies the group_commuting/unique contract for every input of equal width, so the theorems "
+                   "conditional on the contract are non-vacuous for every input and the collection built with it covers every observable "
+                   "unconditionally; Qiskit's own grouping (rustworkx colouring) remains an oracle monitored at run time. Proved for all sizes (any number of qubits, members, groups; closed under the global context) about the "
                    "executable model of most_general_observable, CommutingObservableGroup.__post_init__, ObservableCollection.__init__, "
                    "_append_measurement_register/_append_measurement_circuit and the bitmask decoding: the lookup covers every input observable "
                    "and lists exactly the locations holding it; every member letter is I or the general observable's letter and the general "
@@ -38,6 +48,8 @@ ENTRY = dict(
         assumptions=[
             "Model/Grouping.v and Model/Measurement.v are hand-written models of the functions named above; tied to /repo by the C11 "
             "correspondence (vm_compute of the model on the inputs the implementation ran on) and the extracted ValueError site counts",
+            "for n = 2 qubits the Born/Heisenberg hypothesis is no longer an assumption (c11_born_two_qubits, all Gaussian-rational "
+            "states); it remains one for n > 2",
             "Born/Heisenberg hypothesis (Section Expectation): for local rotations U_q followed by Z-measurements, "
             "E[prod_{q in S} (-1)^{b_q}] = ev(tensor_{q in S} U_q^dagger Z U_q) for every sub-selection S of the measured qubits; "
             "not proved in general, instantiated exactly on one two-qubit state for the general observables XY, ZX, YY",
